@@ -247,6 +247,8 @@ func (e *Engine) runPath(fn *ssa.Function, prefix []uint64, base Options) {
 	e.prefix = prefix
 	e.decisions = nil
 	e.decided = map[uint32]bool{}
+	e.pcVars = map[uint32]bool{}
+	e.pcSeen = map[uint32]bool{}
 	e.uniq = map[uint32]uniqRes{}
 	e.steps = 0
 	e.fresh = map[string]int{}
